@@ -87,6 +87,22 @@ theorem stepIn_acct_only {tx : List TOp} {i : Nat} {t : TOp} {w w' : WState} (hn
       · injection h with h; subst h; exact ⟨setAcct_sinv hi ha rfl, rfl⟩
       · cases h
     · cases h
+  | startDelev ai signer recordOk =>
+    simp only [WState.stepIn] at h
+    split at h
+    · rename_i a ha
+      split at h
+      · injection h with h; subst h; exact ⟨setAcct_sinv hi ha rfl, rfl⟩
+      · cases h
+    · cases h
+  | endDelev ai signer recordOk =>
+    simp only [WState.stepIn] at h
+    split at h
+    · rename_i a ha
+      split at h
+      · injection h with h; subst h; exact ⟨setAcct_sinv hi ha rfl, rfl⟩
+      · cases h
+    · cases h
 
 /-- instructions inside transactions carry unsigned arguments -/
 def TOp.Ok : TOp → Prop
@@ -166,6 +182,28 @@ theorem stepInE_good {tx : List TOp} {i : Nat} {t : TOp} {w w' : WState} {e : Li
   | endLiq ai signer recordOk walletOk feeMax =>
     simp only [WState.stepInE] at h
     cases hs : w.stepIn tx i (.endLiq ai signer recordOk walletOk feeMax) with
+    | none => rw [hs] at h; cases h
+    | some w1 =>
+      rw [hs] at h
+      simp only [Option.map_some, Option.some.injEq, Prod.mk.injEq] at h
+      obtain ⟨h1, h2⟩ := h
+      subst h1; subst h2
+      obtain ⟨hinv, hb⟩ := stepIn_acct_only (fun op => by simp) hs hi
+      exact ⟨hinv, fun j x hx => ⟨x, by rw [hb]; exact hx, rfl, Int.le_refl _, Int.le_refl _⟩⟩
+  | startDelev ai signer recordOk =>
+    simp only [WState.stepInE] at h
+    cases hs : w.stepIn tx i (.startDelev ai signer recordOk) with
+    | none => rw [hs] at h; cases h
+    | some w1 =>
+      rw [hs] at h
+      simp only [Option.map_some, Option.some.injEq, Prod.mk.injEq] at h
+      obtain ⟨h1, h2⟩ := h
+      subst h1; subst h2
+      obtain ⟨hinv, hb⟩ := stepIn_acct_only (fun op => by simp) hs hi
+      exact ⟨hinv, fun j x hx => ⟨x, by rw [hb]; exact hx, rfl, Int.le_refl _, Int.le_refl _⟩⟩
+  | endDelev ai signer recordOk =>
+    simp only [WState.stepInE] at h
+    cases hs : w.stepIn tx i (.endDelev ai signer recordOk) with
     | none => rw [hs] at h; cases h
     | some w1 =>
       rw [hs] at h
@@ -258,6 +296,16 @@ theorem runFromE_fst (tx : List TOp) : ∀ (rest : List TOp) (i : Nat) (w : WSta
       cases hs : w.stepIn tx i (.endLiq ai signer recordOk walletOk feeMax) with
       | none => rfl
       | some w1 => exact ih (i + 1) _ _
+    | startDelev ai signer recordOk =>
+      simp only [WState.stepInE]
+      cases hs : w.stepIn tx i (.startDelev ai signer recordOk) with
+      | none => rfl
+      | some w1 => exact ih (i + 1) _ _
+    | endDelev ai signer recordOk =>
+      simp only [WState.stepInE]
+      cases hs : w.stepIn tx i (.endDelev ai signer recordOk) with
+      | none => rfl
+      | some w1 => exact ih (i + 1) _ _
 
 theorem runTxE_fst (w : WState) (g : Ghost) (tx : List TOp) : (w.runTxE g tx).1 = (w.runTx tx).getD w := by
   unfold WState.runTxE WState.runTx
@@ -306,6 +354,22 @@ theorem stepIn_shape {tx : List TOp} {i : Nat} {t : TOp} {w w' : WState} (h : w.
       · cases h
     · cases h
   | endLiq ai signer recordOk walletOk feeMax =>
+    simp only [WState.stepIn] at h
+    split at h
+    · rename_i a ha
+      split at h
+      · injection h with h; subst h; exact setAcct_shape hw ha rfl
+      · cases h
+    · cases h
+  | startDelev ai signer recordOk =>
+    simp only [WState.stepIn] at h
+    split at h
+    · rename_i a ha
+      split at h
+      · injection h with h; subst h; exact setAcct_shape hw ha rfl
+      · cases h
+    · cases h
+  | endDelev ai signer recordOk =>
     simp only [WState.stepIn] at h
     split at h
     · rename_i a ha
